@@ -36,6 +36,7 @@ Definition crScreenSwitch := 3.
    these mark operations on which the span buffer is known to differ. *)
 Definition trSecondHalf := 1.   (* operation starts on a continuation cell *)
 Definition trWideOnNarrow := 2. (* glyph wider than the screen *)
+Definition trInvalidUtf8 := 8.  (* invalid UTF-8 byte stored as text (span buffer keeps raw bytes) *)
 Definition trLockedRead := 4.   (* API call while the loop waits inside an escape sequence, lock held *)
 
 Record screen := mkScreen {
